@@ -508,7 +508,7 @@ def analyse_leak(tu):
                     continue
                 e0 = strip(r.e)
                 kind = None
-                if e0 is not None and e0.k == "DeclRefExpr" and _accumulator(fn, e0.n):
+                if e0 is not None and e0.k == "DeclRefExpr" and _accumulator(fn, e0.n) and not isinstance(v, int):
                     kind = "the counter %s" % e0.n
                     boolean = False
                 elif isinstance(v, int) or v == "NN":
